@@ -285,6 +285,38 @@ def r4_rejoin_or_defunct(ctx, f, rep):
             gos = [c for c in p.calls() if c['res'] == 'Foca::gossip']
             rep.check(not gos, 'C10-R4', hb.nname, 'no gossip under the dead identity from this arm', construct='no-gossip-when-dead')
     rep.floor('C10-R4', n, 4, 'Down / at-MAX paths')
+    cs_ = sorted({c[0].nname for c in f.callers_of(lambda x: x == 'Foca::attempt_rejoin')})
+    rep.check(cs_ == ['Foca::handle_self_update'], 'C10-R4', 'Foca::attempt_rejoin', 'renewal is attempted only from '
+              'handle_self_update (so a failed attempt always ends in become_undead)', construct='attempt_rejoin-callers',
+              facts={'callers': cs_})
+    # every way of learning "your identity is Down" goes through handle_self_update(_, Down)
+    from . import c12
+    hd = f.fn('Foca::handle_data')
+    n_tu = 0
+    for p in ctx.paths(f, hd, 'none'):
+        if p.end != 'return' or q.path_is_error_propagation(p):
+            continue
+        h, src, msg = c12.header_parts(p)
+        if h is None or not any(e['res'] == 'Foca::apply_update' for e in p.calls()):
+            continue
+        ks = c12.message_kinds(f, p, len(p.events), lambda v: v == msg)
+        if ks != {'TurnUndead'}:
+            continue
+        active = None
+        for c in p.conds():
+            if c.get('dty') == 'bool' and c['expr'][0] == 'fieldv' and c['expr'][3] == 'Continue' and active is None:
+                active = q.cond_truth(c)
+        conn = None
+        for c in p.conds():
+            es = q.eq_sides(c['expr'])
+            if es and q.is_self_field_load(es[1], 'connection_state') and q.is_variant(es[2], 'ConnectionState', 'Connected'):
+                conn = (q.cond_truth(c) == es[0])
+        if active is False or (active is True and conn is True):
+            n_tu += 1
+            hs = [e for e in p.calls() if e['res'] == 'Foca::handle_self_update' and q.is_variant(e['args'][2], 'State', 'Down')]
+            rep.check(len(hs) == 1, 'C10-R4', hd.nname, 'a TurnUndead addressed to us (from an active sender while connected, or '
+                      'from a sender we hold as Down) is handled by handle_self_update(_, Down)', construct='turnundead-handled:%s' % active)
+    rep.floor('C10-R4', n_tu, 2, 'TurnUndead handling paths')
     ab = f.fn('Foca::attempt_rejoin')
     n = 0
     for p in ctx.paths(f, ab, 'none'):
